@@ -99,7 +99,8 @@ def inHalfOpen (s : V3 K) : Bool :=
   decide (0 ≤ s.z) && decide (s.z < 1)
 
 /-- `rotate` up to (not including) `normalize`: the new box and the atoms kept.
-    The bounding supercell is translated by the whole lattice vector `-⌊origin·V⁻¹⌋·V` so that it
+    The bounding supercell is translated by the whole lattice vector `-rint(origin·V⁻¹)·V` (the nearest one:
+    `⌊x + 1/2⌋`, `np.rint` away from exact halves) so that it
     surrounds the Cartesian origin; the new cell `U·vects` is cut out at the Cartesian origin
     (`box_set(vects=…)` resets the origin to zero).  `fl` is the floor function (`Rat.floor` when run).
     `none` = the refusal "vectors are parallel or planar" (`det U = 0`). -/
@@ -108,7 +109,8 @@ def rotateRaw (fl : K → Int) (b : Box K) (U : M3 Int) (atoms : List (Atom K)) 
   if M3.det U = 0 then none else
   let (sa, sb, sc) := rotateSizes U
   let orel := b.cartToRel ⟨0, 0, 0⟩          -- = -(origin · V⁻¹)
-  let nsh : V3 K := ⟨((fl (0 - orel.x) : Int) : K), ((fl (0 - orel.y) : Int) : K), ((fl (0 - orel.z) : Int) : K)⟩
+  let nsh : V3 K := ⟨((fl (0 - orel.x + 1 / ((2 : Int) : K)) : Int) : K), ((fl (0 - orel.y + 1 / ((2 : Int) : K)) : Int) : K),
+                     ((fl (0 - orel.z + 1 / ((2 : Int) : K)) : Int) : K)⟩
   let shift := M3.vecMul nsh b.vects
   let sup := (supersizeAtoms b sa sb sc atoms).map fun a => { a with pos := a.pos - shift }
   let nb : Box K := ⟨newVects U b.vects, ⟨0, 0, 0⟩⟩
